@@ -20,7 +20,13 @@ def main():
         api.install_summary(s)
     f = h["func"]
     args = []
-    for pname, p in inspect.signature(f).parameters.items():
+    plist = list(inspect.signature(f).parameters.items())
+    if doc.get("cases"):
+        import os
+        from pyvc import tables
+        args.append(getattr(tables, doc["cases"])(os.environ.get("PYVC_REPO", "/repo"))[doc["case"]])
+        plist = plist[1:]
+    for pname, p in plist:
         ann = p.annotation if isinstance(p.annotation, str) else getattr(p.annotation, "__name__", str(p.annotation))
         if ann == "int" or (ann.startswith("u") and ann[1:].isdigit()):
             args.append(api.fresh_int(pname))
@@ -53,7 +59,7 @@ def main():
             out["outcome"] = "confirmed"
         else:
             out["outcome"] = "other-obligation-failed"
-    out["inputs"] = {k: (v if not isinstance(v, bytes) else v.hex()) for k, v in zip(inspect.signature(f).parameters, args)}
+    out["inputs"] = {k: (v if not isinstance(v, bytes) else v.hex()) for k, v in zip(inspect.signature(f).parameters, args) if not isinstance(v, dict)}
     print("REPLAY-RESULT " + json.dumps(out, default=str))
 
 
